@@ -524,6 +524,21 @@ class Store:
                 f"which already has the value {current_schema_value}.")
         return new_schema
 
+    def _check_implied_units(self, implied):
+        """Check the units a quantity-valued default or value implies.
+
+        Raises:
+            ValueError: If units of another dimension are already
+                declared for this variable (whatever the order in which
+                the declarations arrive).
+        """
+        if self.units is not None and \
+                self.units.dimensionality != implied.dimensionality:
+            raise ValueError(
+                f"Incompatible schema assignment at {self.path_for()}. "
+                f"Trying to assign the value {implied} to key units, "
+                f"which already has the value {self.units}.")
+
     def _check_schema_support_defaults(self, schema_key, new_schema, schema_registry):
         current_schema_value = getattr(self, schema_key)
         if isinstance(new_schema, str):
@@ -670,6 +685,7 @@ class Store:
             if '_default' in config:
                 self.default = self._check_default(config.get('_default'))
                 if isinstance(self.default, Quantity):
+                    self._check_implied_units(self.default.units)
                     self.units = self.units or self.default.units
                     self.serializer = (self.serializer or
                                        serializer_registry.access(
@@ -677,6 +693,7 @@ class Store:
                 elif isinstance(self.default, list) and \
                         len(self.default) > 0 and \
                         isinstance(self.default[0], Quantity):
+                    self._check_implied_units(self.default[0].units)
                     self.units = self.units or self.default[0].units
                     self.serializer = (self.serializer or
                                        serializer_registry.access(
@@ -686,6 +703,7 @@ class Store:
                 self.value = self._check_schema(
                     'value', config.get('_value'))
                 if isinstance(self.value, Quantity):
+                    self._check_implied_units(self.value.units)
                     self.units = self.value.units
                     self.serializer = (self.serializer or
                                        serializer_registry.access(
